@@ -73,12 +73,29 @@ def run(prop, spec, tier, seed):
         setup(prop, spec)
     except build.BuildError as e:
         print(f"BUILD-ERROR {prop}: {e}", file=sys.stderr)
-        return 2
+        return None
     findings_known, _ = core.load_known(prop)
     known_sigs = [e["signature"] for e in findings_known]
     tot = {"evaluations": 0, "distinct_nontrivial": 0, "classes": {}, "samples": [], "inconclusive": {}, "per_suite": {}}
     findings, broken = [], []
     exhaustive = None
+    # replay tier: committed regression scenarios (corpus/<ID>/*.json), oracle called directly
+    import glob
+    replayed = 0
+    for path in sorted(glob.glob(os.path.join(VERIF, "corpus", prop, "*.json"))):
+        with open(path) as fh:
+            j = json.load(fh)
+        suite = next((s for s in spec["suites"] if s["module"] == j.get("suite")), spec["suites"][0])
+        rc, res, text = _run_suite(prop, suite, "quick", seed, known_sigs, replay=path)
+        replayed += 1
+        if res is None:
+            broken.append(f"replay of {path} produced no result: {text[-800:]}")
+            continue
+        for f in res.get("findings", []):
+            f["suite"] = suite["module"]
+            findings.append(f)
+    tot["evaluations"] += replayed
+    tot["replayed_corpus_files"] = replayed
     for suite in spec["suites"]:
         if tier == "quick" and suite.get("thorough_only"):
             continue
@@ -128,22 +145,16 @@ def run(prop, spec, tier, seed):
         coverage["exhaustive"] = bool(exhaustive)
         if spec.get("exhaustive_note"):
             coverage["exhaustive_what"] = spec["exhaustive_note"]
-    core.write_evidence(prop, tier, seed, spec["level"], coverage, spec.get("assumptions", []), time.time() - t0, len(violations))
+    lines = []
     for e in findings_known:
         n = excluded.get("excluded_known:" + e["signature"], 0)
-        print(f"KNOWN-FINDING: property={prop} {e['what']} (signature {e['signature']}; met {n} times in this run and excluded)")
+        lines.append(f"KNOWN-FINDING: property={prop} {e['what']} (signature {e['signature']}; met {n} times in this run and excluded)")
     for f in violations:
-        print(f"# violation signature={f['signature']} suite={f['suite']}")
-        print(f"#   reason: {str(f.get('reason'))[:1500]}")
-        print(f"#   scenario: {json.dumps(f['scenario'])[:1500]}")
-        print(f"VIOLATION property={prop} replay={f['path']}")
-    if violations:
-        return 1
-    if broken:
-        print(f"CHECK-BROKEN {prop}: {broken[0][:1500]}", file=sys.stderr)
-        return 2
-    print(f"OK {prop} tier={tier} seed={seed} evaluations={tot['evaluations']} distinct_nontrivial={tot['distinct_nontrivial']} wall={time.time() - t0:.1f}s")
-    return 0
+        lines.append(f"# violation signature={f['signature']} suite={f['suite']}")
+        lines.append(f"#   reason: {str(f.get('reason'))[:1500]}")
+        lines.append(f"#   scenario: {json.dumps(f['scenario'])[:1500]}")
+        lines.append(f"VIOLATION property={prop} replay={f['path']}")
+    return {"coverage": coverage, "violations": len(violations), "lines": lines, "broken": broken[0][:1500] if broken else None, "wall": time.time() - t0}
 
 
 def replay(prop, spec, path):
